@@ -1,15 +1,27 @@
 /-
-  C11, expansion half.
+  C11, expansion half (tree with `discard()`, /repo commit 7623822).
 
-  PROVED here: order of sink writes; the three lifecycle WITNESSES (F2, F4, F5:
-  the intended invariants are FALSE for the code as it is — reachable
-  counterexamples replayed by the kernel).
-  NOT PROVED (stated as what the BFS driver `schedd-bfs` and the trace
-  acceptor check, never as theorems): conservation of work units / out slots /
-  in slots, capacities of retr_q, emit_q, reord_q, order_q, the bound
-  `|unord_q| ≤ cap + #stale` and deadlock-freedom with the `pos_le` guard.
+  PROVED here, for every `n`, slot count, granularity, input abstraction,
+  candidate set and interleaving (all reachable states of `Model.SchedD`):
+    order, single mastership, conservation of work units and output slots,
+    the capacities that follow, quiescence at termination,
+    `attach_in_range` (restored: F5 is repaired), `no_unord_leak` (restored: F2
+    is repaired), and the WITNESS that the tight capacity of `unord_q` is
+    still false (F4).
+    conservation of input slots (for `W ≥ 1`), and `progress_partial`: a state
+    without enabled transition is quiescent.
+  NOT PROVED (checked by the BFS driver `schedd-bfs` and by trace acceptance
+  only, never presented as theorems): the capacity of `order_q`,
+  `|unord_q| ≤ cap + #stale`, wake-up discipline, and the second half of
+  deadlock-freedom (no reachable quiescent state other than the final ones;
+  needs at least `EMIT_THRESH < total_out`, see `progress_partial`).
 -/
 import LbzVerif.Lemmas.SchedD.Safe3
+import LbzVerif.Lemmas.SchedD.Attach
+import LbzVerif.Lemmas.SchedD.Leak
+import LbzVerif.Lemmas.SchedD.Cons
+import LbzVerif.Lemmas.SchedD.InSlots
+import LbzVerif.Lemmas.SchedD.Progress
 import LbzVerif.Lemmas.SchedD.Witness
 
 namespace LbzVerif.Props.C11.Expand
@@ -52,10 +64,12 @@ theorem reach_of_run {c : Cfg} {ls : List Label} {p : State → Bool}
   | none => simp [hr] at h
   | some s => exact ⟨s, reach_run _ Reach.init hr, by simpa [hr] using h⟩
 
-/-- **F4 witness** — the tight capacity of `unord_q` is FALSE for the code as
-    it is: with n = 2, out_slots = 4 (capacity 2 + 4 − 3 = 3) a reachable state
-    has 4 entries in `unord_q`; 3 of them are stale (their job was dropped by
-    `advance()`, they hold neither a work unit nor an output slot).  The
+/-- **F4 witness** (still present after commit 7623822) — the tight capacity of
+    `unord_q` is FALSE for the code as it is: with n = 2, out_slots = 4
+    (capacity 2 + 4 − 3 = 3) a reachable state has 4 entries in `unord_q`; 3 of
+    them are stale (their job was `discard()`ed by `advance()`; they are marked
+    complete and wait for the parser, holding neither a work unit nor an
+    output slot).  The
     intended theorem `unord_cap_partial : |unord_q| ≤ cap + #stale` is checked
     by BFS only (`unordpartialviol = 0`). -/
 theorem unord_cap_false :
@@ -64,20 +78,93 @@ theorem unord_cap_false :
   simp only [Bool.and_eq_true, decide_eq_true_eq] at hp
   exact ⟨s, hr, by omega, hp.2⟩
 
-/-- **F5 witness** — `attach_in_range` is FALSE for the code as it is: a
-    reachable state has a (speculative) retrieve job queued with
-    `curr_pos.offset < head_offs`; the next `attach()` reads behind the
-    released input. -/
-theorem attach_in_range_false : ∃ s, Reach cfgF5 s ∧ staleAttach cfgF5 s = true :=
-  reach_of_run f5_run
+/-- **conservation** (full strength): while `failf` has not been called, the
+    free work units plus the jobs queued in `retr_q`/`emit_q` plus the busy
+    workers make up `n`, and the free output slots plus the buffers in
+    `reord_q`, at the writer, and being emitted make up `total_out`. -/
+theorem conservation {c : Cfg} {s : State} (h : Reach c s) (hf : s.failed = false) :
+    s.wu + s.retrQ.length + s.emitQ.length + busyCount s = c.n ∧
+    s.outSlots + s.reordQ.length + s.outq + emitBusy s = c.totalOut :=
+  let ci := ci_reach h hf
+  ⟨ci.wuC, ci.osC⟩
 
-/-- **F2 witness** — live `unord_blk` objects are not bounded by the queues:
-    a run terminates cleanly (all counters back, right output) with an
-    `unord_blk` nobody will free. -/
-theorem unord_blk_leak :
-    ∃ s, Reach cfgF4 s ∧ terminated cfgF4 s = true ∧ leakedCount s = 1 := by
-  obtain ⟨s, hr, hp⟩ := reach_of_run f2_run
+/-- **capacity** (full strength) of `retr_q`, `emit_q` (≤ n) and `reord_q`,
+    `output_q` (≤ total_out); the counters never exceed their totals. -/
+theorem capacity {c : Cfg} {s : State} (h : Reach c s) (hf : s.failed = false) :
+    s.retrQ.length ≤ c.n ∧ s.emitQ.length ≤ c.n ∧ s.reordQ.length ≤ c.totalOut ∧
+    s.outq ≤ c.totalOut ∧ s.wu ≤ c.n ∧ s.outSlots ≤ c.totalOut ∧ busyCount s ≤ c.n :=
+  capacities h hf
+
+/-- **conservation of input slots** (full strength for input granularity
+    `W ≥ 1`): free input slots + blocks in `input_q` + released blocks still
+    attached by a worker + the buffer the reader holds = `total_in`. -/
+theorem in_slots_conservation {c : Cfg} (hW : 0 < c.W) {s : State} (h : Reach c s) :
+    s.inSlots + inputAlive s = c.totalIn :=
+  in_slots_conserved hW h
+
+/-- **everything is given back** (full strength): when all workers have left
+    the loop, no job, buffer or busy worker is left, no `unord_blk` is live. -/
+theorem quiescent_at_termination {c : Cfg} {s : State} (h : Reach c s)
+    (ht : terminated c s = true) :
+    s.retrQ = [] ∧ s.emitQ = [] ∧ s.busy = [] ∧ s.pphase = none ∧ s.reordQ = [] ∧ s.outq = 0
+    ∧ s.orphans = [] :=
+  let q := terminated_quiescent h ht
+  ⟨q.1, q.2.1, q.2.2.1, q.2.2.2.1, q.2.2.2.2.1, q.2.2.2.2.2, (no_unord_leak_terminated h ht).1⟩
+
+example : ∃ s, Reach cfgF4 s ∧ terminated cfgF4 s = true :=
+  let ⟨s, hr, hp⟩ := reach_of_run f2_repaired
+  ⟨s, hr, by simp only [Bool.and_eq_true] at hp; exact hp.1.1.1⟩
+
+/-- **attach_in_range** (full strength, restored after the F5 repair): every
+    retrieve job in `retr_q` — master or speculative —, every scan job and,
+    while parsing is not done, the parser position lie at or after `head_offs`;
+    so `attach()` is only ever called in range (`can_attach` supplies the upper
+    bound `≤ tail_offs`). -/
+theorem attach_in_range {c : Cfg} {s : State} (h : Reach c s) :
+    (∀ j ∈ s.retrQ, headOffs c s ≤ j.curr) ∧ (∀ sp ∈ s.scanQ, headOffs c s ≤ sp) ∧
+    (s.pdone = false → headOffs c s ≤ s.ppos) ∧ staleAttach c s = false :=
+  LbzVerif.Lemmas.SchedD.attach_in_range h
+
+/-- on the former F5 run the overtaken job is discarded and `retr_q` is in range -/
+example : ∃ s, Reach cfgF5 s ∧ headOffs cfgF5 s = 6 ∧ unordSize s = 1 ∧ staleCount s = 1 := by
+  obtain ⟨s, hr, hp⟩ := reach_of_run f5_repaired
   simp only [Bool.and_eq_true, decide_eq_true_eq] at hp
-  exact ⟨s, hr, hp.1.1, hp.1.2⟩
+  exact ⟨s, hr, hp.1.1.1.2, hp.1.2, hp.2⟩
+
+/-- **no_unord_leak** (full strength, restored after the F2 repair): every
+    `unord_blk` that no retrieve job owns is still in `unord_q` (so the parser
+    frees it when it pops it), none is left once parsing is done, and the leak
+    counter of the model is 0.  (That an owned `unord_blk` is linked from exactly
+    one job holds by construction of the model: `Job.ub`.) -/
+theorem no_unord_leak {c : Cfg} {s : State} (h : Reach c s) (hf : s.failed = false) :
+    (∀ u ∈ s.orphans, u.f.inq = true) ∧ (s.pdone = true → s.orphans = []) ∧ leakedCount s = 0 :=
+  let l := LbzVerif.Lemmas.SchedD.no_unord_leak h hf
+  ⟨l.1, l.2, leakedCount_zero h hf⟩
+
+/-- **progress_partial** — the proved half of deadlock-freedom: a reachable
+    state in which no transition at all is enabled (reader, writer, any worker)
+    is QUIESCENT: no worker is inside a task, the writer has nothing to write,
+    the reader is done or blocked on `in_slots = 0`, and `select_task()` finds
+    no runnable task (or `n = 0`).  So every maximal run ends in a quiescent
+    state.
+    MISSING for `progress`: that a reachable quiescent state is final
+    (`terminated` or `failed`).  This is false without `EMIT_THRESH < total_out`
+    (BFS: with n = 2, total_out = 2 a spurious block beyond the end of the
+    stream leaves an emit job that may never take a slot once `order_q` is
+    empty) and for the rest needs the reservation arguments behind SCAN_THRESH /
+    EMIT_THRESH and an exact-cover version of the holder invariant; BFS finds
+    no stuck state on any explored shape with `total_out > EMIT_THRESH`. -/
+theorem progress_partial {c : Cfg} {s : State} (_h : Reach c s) (hf : s.failed = false)
+    (hs : enabled c s = []) : Quiescent c s :=
+  stuck_quiescent hf hs
+
+/-- the hypotheses of `progress_partial` are met by the terminated state of the
+    F2 run (which is final, hence legitimately without successor) -/
+example : ∃ s, Reach cfgF4 s ∧ s.failed = false ∧ enabled cfgF4 s = [] := by
+  have h : (run cfgF4 (init cfgF4) traceF2).any
+      (fun s => !s.failed && decide (enabled cfgF4 s = [])) = true := by decide +kernel
+  obtain ⟨s, hr, hp⟩ := reach_of_run h
+  simp only [Bool.and_eq_true, Bool.not_eq_true', decide_eq_true_eq] at hp
+  exact ⟨s, hr, hp.1, hp.2⟩
 
 end LbzVerif.Props.C11.Expand
